@@ -166,7 +166,7 @@ let monitors : (string * (config -> n list -> n list option -> bool)) list = [
   ("C04", (fun _ _ r -> ok_C04 r));
   ("C05", ok_C05);
   ("C06", ok_C06);
-  ("C12", ok_C12);
+  ("C12", ok_C12x);    (* Spec/C12x.v: the corrected monitor (Spec/C12.v ok_C12 over-demands, see C12_spec_monitor_refuted) *)
   ("C16udp", ok_C16_udp);
   ("C16udp_strict", ok_C16_udp_strict);
   ("C13udp", ok_C13_udp);
@@ -179,6 +179,11 @@ let monitors : (string * (config -> n list -> n list option -> bool)) list = [
 (* monitors that read the implementation's compiled signature table (env) *)
 let monitors_env : (string * (env -> config -> n list -> n list option -> bool)) list = [
   ("C14udp", ok_C14_udp);
+  ("C12idudp", ok_C12id_udp);
+]
+
+let monitors_env_st : (string * (env -> config -> ref_state -> n list -> n list option -> bool)) list = [
+  ("C12idtcp", ok_C12id_tcp);
 ]
 
 (* frame classes: known-finding classes and coverage counters *)
@@ -199,6 +204,7 @@ let monitors_st : (string * (config -> ref_state -> n list -> n list option -> b
   ("C15tcp", ok_C15_tcp);
   ("C15tcp_strict", ok_C15_tcp_strict);
   ("C17tcp", ok_C17_tcp);
+  ("C12tcp", ok_C12x_tcp);
 ]
 
 let () =
@@ -239,6 +245,9 @@ let () =
              List.iter (fun (name, m) ->
                if List.mem name wanted then
                  Printf.printf "V %s %d\n" name (if m env !cfg frame ir then 1 else 0)) monitors_env;
+             List.iter (fun (name, m) ->
+               if List.mem name wanted then
+                 Printf.printf "V %s %d\n" name (if m env !cfg !rst frame ir then 1 else 0)) monitors_env_st;
              (match !ievs with
               | Some evs when List.mem "C20" wanted ->
                 Printf.printf "V C20 %d\n" (if ok_C20 !cfg frame ir evs then 1 else 0)
